@@ -1,7 +1,9 @@
 import MythVerif.Model.WsQueue
 /-! x86-TSO model of the work-stealing queue: owner `push` / `pop` (all paths: lock-free fast
     path, locked slow path, reset) and owner `put` (base-side insert under the lock) against any
-    number of other participants running `myth_queue_take` and `myth_queue_trypass`.
+    number of other participants running `myth_queue_take`, `myth_queue_trypass` and
+    `myth_queue_peek` (lock-free loads of `base`, `top` and one slot; the value is a hint to the
+    caller and nothing is removed).
 
     Machine (DESIGN 3.2 / A.3): one FIFO store buffer per participant; a store appends to the
     own buffer; a load forwards from the newest own buffered store to that location, else reads
@@ -22,7 +24,7 @@ import MythVerif.Model.WsQueue
     `e` (the element whose slot store precedes it in the same FIFO buffer); draining it conses `e`
     to the abstract deque.
 
-    Not modelled here (the `_partial` in the theorem name): peek / wsapi functions, the steal
+    Not modelled here (the `_partial` in the theorem name): the wsapi functions, the steal
     cache, clear, re-centring (a push at `top == size` goes to `stuck`, a put at `base == 0` goes
     to `stuckL` – still holding the lock, as the code does while it re-centres). -/
 namespace MythVerif.WsqTso
@@ -92,6 +94,10 @@ inductive TPc where
   | tp2 (e : Elem) (b : Int)         -- q->ptr[b-1] = th          (wbarrier: compiler only)
   | tp3 (e : Elem)                   -- q->base--
   | tp4 (ok : Bool)                  -- unlock ; return ok
+  | kq0 | kq1 (t : Int)              -- peek: quick check
+  | pk1                              -- b = q->base            (no lock)
+  | pk2 (b : Int)                    -- top = q->top ; b < top ?
+  | pk3 (b : Int)                    -- rbarrier ; ret = q->ptr[b]   (returned as a hint, nothing removed)
   deriving DecidableEq, Repr
 
 structure St where
@@ -154,7 +160,7 @@ def applySto (s : St) : Sto → St
 
 inductive Lbl where
   | oPush (e : Elem) | oPop | oPut (e : Elem) | o | flushO
-  | tTake (p : Pid) | tPass (p : Pid) (e : Elem) | t (p : Pid) | flushT (p : Pid)
+  | tTake (p : Pid) | tPass (p : Pid) (e : Elem) | tPeek (p : Pid) | t (p : Pid) | flushT (p : Pid)
   deriving DecidableEq, Repr
 
 /-- fence: enabled on an empty buffer (or always, when that fence is switched off) -/
@@ -258,6 +264,13 @@ def stepT (s : St) (p : Pid) : Option St :=
   | .tp3 e => let b := viewBase (s.bufT p) s.base
               some { s with bufT := upd s.bufT p (s.bufT p ++ [.baseI (b - 1) e]), tpc := upd s.tpc p (.tp4 true) }
   | .tp4 _ => (releaseT s p).map fun s' => { s' with tpc := upd s.tpc p .idle }
+  | .kq0 => some { s with tpc := upd s.tpc p (.kq1 (viewTop (s.bufT p) s.top)) }
+  | .kq1 t => if t - viewBase (s.bufT p) s.base ≤ 0 then some { s with tpc := upd s.tpc p .idle }
+              else some { s with tpc := upd s.tpc p .pk1 }
+  | .pk1 => some { s with tpc := upd s.tpc p (.pk2 (viewBase (s.bufT p) s.base)) }
+  | .pk2 b => if b < viewTop (s.bufT p) s.top then some { s with tpc := upd s.tpc p (.pk3 b) }
+              else some { s with tpc := upd s.tpc p .idle }
+  | .pk3 _ => some { s with tpc := upd s.tpc p .idle }
 
 def step (s : St) : Lbl → Option St
   | .oPush e => match s.opc with
@@ -278,6 +291,9 @@ def step (s : St) : Lbl → Option St
     | _ => none
   | .tPass p e => match s.tpc p with
     | .idle => some { s with tpc := upd s.tpc p (.tpl e) }
+    | _ => none
+  | .tPeek p => match s.tpc p with
+    | .idle => some { s with tpc := upd s.tpc p .kq0 }
     | _ => none
   | .t p => stepT s p
   | .flushT p => match s.bufT p with
